@@ -499,3 +499,44 @@ class Check:
               % ('FAIL' if violations else 'PASS', self.prop, self.tier, self.seed, self.evaluations, len(self.nontrivial),
                  cov['discharged'], cov['obligations'], len(self.disagreements), violations, time.time() - self.t0))
         return 1 if violations else 0
+
+
+def run_on_pty(cmd, env=None, timeout=60, cols=80):
+    """run `cmd` with its stdout attached to a pseudo-terminal of `cols` columns (stderr to a pipe): (what appeared on the terminal with the
+    terminal's CR LF line ends turned back into LF, exit status)"""
+    import fcntl
+    import pty
+    import select
+    import struct as _struct
+    import termios
+    master, slave = pty.openpty()
+    fcntl.ioctl(slave, termios.TIOCSWINSZ, _struct.pack('HHHH', 24, cols, 0, 0))
+    p = subprocess.Popen(cmd, stdout=slave, stderr=subprocess.PIPE, stdin=subprocess.DEVNULL, env=env, close_fds=True)
+    os.close(slave)
+    chunks = []
+    t0 = time.time()
+    while True:
+        if time.time() - t0 > timeout:
+            p.kill()
+            break
+        r, _, _ = select.select([master], [], [], 0.2)
+        if r:
+            try:
+                data = os.read(master, 65536)
+            except OSError:
+                break
+            if not data:
+                break
+            chunks.append(data)
+        elif p.poll() is not None:
+            break
+    try:
+        p.wait(timeout=5)
+    except Exception:  # noqa
+        p.kill()
+    os.close(master)
+    try:
+        p.stderr.close()
+    except Exception:  # noqa
+        pass
+    return b''.join(chunks).decode(errors='replace').replace('\r\n', '\n'), p.returncode
